@@ -750,13 +750,24 @@ class Interp:
             a = a.v
         if isinstance(b, ByteArr):
             b = b.v
+        for x, y, refl in ((a, b, False), (b, a, True)):
+            if hasattr(x, "sym_cmp"):
+                r = x.sym_cmp(self, op, y, refl)
+                if r is not NotImplemented:
+                    return r
         if not isinstance(a, SV) and not isinstance(b, SV):
             if isinstance(a, (Env, Obj)) or isinstance(b, (Env, Obj)) or a is None or b is None:
                 if a is None or b is None:
                     self.raise_("TypeError", "'<' not supported between NoneType and other")
                 self._fresh_n += 1
                 return z3.Bool(f"cmp!{self._fresh_n}")
-            return _PYCMP[type(op)](a, b)
+            plain = (bool, int, float, str, bytes, tuple, list)
+            if not isinstance(a, plain) or not isinstance(b, plain):
+                raise Unsupported(f"ordering comparison of {type(a).__name__} and {type(b).__name__}")
+            try:
+                return _PYCMP[type(op)](a, b)
+            except TypeError as e:
+                self.raise_("TypeError", str(e))
         ka, kb = self.kind_of(a), self.kind_of(b)
         num = ("int", "real", "bool")
         if ka in num and kb in num:
@@ -1624,6 +1635,34 @@ class Interp:
                 return SymMap(self, f"map!{self._fresh_n}", pairs.length, lambda i: pairs.elem(i)[0], lambda i: pairs.elem(i)[1])
             if kind != "list":
                 return None
+            # the filter evaluated on a GENERIC element: concretely false for every element -> nothing is selected;
+            # concretely true -> everything is
+            self._fresh_n += 1
+            gi = z3.Int(f"generic!{self._fresh_n}")
+            npc, ndec, nnew, ntr = len(self.pc), len(self.decisions), len(self.new_prefixes), len(self.trace)
+            generic = None
+            self.solver.push()
+            try:
+                self.solver.add(z3.And(gi >= 0, gi < it.length))
+                f2 = Frame(fr.fi, fr.module, fr)
+                f2.self_cls = fr.self_cls
+                self.assign(g.target, it.elem(gi), f2)
+                ts = [self.truth(self.eval(c, f2)) for c in g.ifs]
+                if all(isinstance(t, bool) for t in ts) and len(self.decisions) == ndec and len(self.trace) == ntr:
+                    generic = all(ts)
+            except (PyRaise, Unsupported, PathEnd):
+                generic = None
+            finally:
+                self.solver.pop()
+                del self.pc[npc:]
+                del self.decisions[ndec:]
+                del self.new_prefixes[nnew:]
+                del self.trace[ntr:]
+            if generic is False:
+                return []
+            if generic is True:
+                return self._symseq_comp(ast.ListComp(elt=n.elt, generators=[ast.comprehension(target=g.target, iter=g.iter, ifs=[], is_async=0)]),
+                                         fr, "list")
             self._fresh_n += 1
             tag = self._fresh_n
             m = self.fresh("int", f"count!{tag}")
@@ -1666,8 +1705,43 @@ class Interp:
             return SymMap(self, f"map!{self._fresh_n}", it.length, at(n.key), at(n.value))
         return SymSeq(f"comp!{self._fresh_n}", it.length, at(n.elt))
 
+    def _cond_comp(self, n, fr):
+        """[x for x in xs if c(x)] over a concrete-length iterable whose filter is a symbolic Boolean per element, evaluated
+        without forking: the result is a CondList (length and emptiness are symbolic sums / disjunctions)"""
+        from .values import CondList
+        if len(n.generators) != 1:
+            return None
+        g = n.generators[0]
+        if len(g.ifs) != 1 or not (isinstance(n.elt, ast.Name) and isinstance(g.target, ast.Name) and n.elt.id == g.target.id):
+            return None
+        it = self.eval(g.iter, fr)
+        if not hasattr(it, "sym_iter") or not getattr(it, "cond_comp", False):
+            return None
+        items = list(it.sym_iter(self))
+        npc, ndec, nnew, ntr = len(self.pc), len(self.decisions), len(self.new_prefixes), len(self.trace)
+        out = []
+        try:
+            for x in items:
+                f2 = Frame(fr.fi, fr.module, fr)
+                f2.self_cls = fr.self_cls
+                self.assign(g.target, x, f2)
+                t = self.truth(self.eval(g.ifs[0], f2))
+                out.append((x, z3.BoolVal(t) if isinstance(t, bool) else t))
+            if len(self.decisions) != ndec or len(self.trace) != ntr:
+                raise Unsupported("filter forks or has effects")
+        except (PyRaise, Unsupported, PathEnd):
+            del self.pc[npc:]
+            del self.decisions[ndec:]
+            del self.new_prefixes[nnew:]
+            del self.trace[ntr:]
+            return None
+        return CondList(out)
+
     def e_ListComp(self, n, fr):
         r = self._symseq_comp(n, fr, "list") if len(n.generators) == 1 else None
+        if r is not None:
+            return r
+        r = self._cond_comp(n, fr)
         if r is not None:
             return r
         out = []
